@@ -33,7 +33,7 @@ CHECKS = {
  'C11': ('cmdspec', 'TLC action property PurgeFrame + transition tests with link payloads and operation-trace frame check',
          'PurgeFrame is checked by TLC; trash-empty and trash-rm are run on trashes whose payloads are links / trees with outside links; everything outside files/ and info/ must be unchanged and the traced mutating operations must all lie inside them.', '6 C11'),
  'C12': ('cmdspec', 'TLC-generated trash-rm transitions on the real command',
-         'RmApply/Matches define the removed set; all generated cases (pattern classes x trashes with equal base names in different directories and volumes) are executed with names from a pool containing glob metacharacters; the byte-level matcher is covered by the function layer (Glob.tla).', '6 C12'),
+         'RmApply/Matches define the removed set; all generated cases (pattern classes x trashes with equal base names in different directories and volumes) are executed with names from a pool containing glob metacharacters; the byte-level matcher is covered by the function layer (Glob.tla); an errno instead of every unlink / rmdir of a payload: TLC (PurgeTrace) evaluates InfoLast on the state trash-rm leaves (payload and info go together).', '6 C12'),
  'C13': ('cmdspec', 'TLC-generated trash-restore transitions (scope x sort x reply) on the real command',
          'IsListing / RestoreApply define the allowed listings and the restored set; TLC prints every allowed (listing, post-state) for a (state, operation) and the observation must be one of them; scope is tested at component boundaries with prefix-sibling names.', '6 C13'),
  'C14': ('cmdspec', 'TLC action property NoConsentNoChange + dry-run / consent transition tests',
